@@ -80,11 +80,11 @@ def describe(kind, sd, m, mk, rec):
             from ..oracles import smiles_ref
         except ImportError:
             return None
-        text = smiles_ref.write_random(mk, sd)
-        if text is None:
+        r = smiles_ref.write_random(m if sd % 2 else mk, sd)
+        if r is None:
             rec.count('ref-writer-not-applicable')
             return None
-        x = smiles(text)
+        x = smiles(r[0])
         molgen.normalise(x)
         return x, None
     raise HarnessError(kind)
